@@ -233,8 +233,21 @@ func loadedReadOnly(v ssa.Value, depth int) bool {
 			switch r := ref.(type) {
 			case *ssa.Lookup, *ssa.Range, *ssa.DebugRef:
 			case ssa.CallInstruction:
-				if b, ok := r.Common().Value.(*ssa.Builtin); !ok || b.Name() != "len" {
+				if b, ok := r.Common().Value.(*ssa.Builtin); ok {
+					if b.Name() != "len" {
+						return false
+					}
+					continue
+				}
+				// handed to a function of the module that itself only reads it
+				f := r.Common().StaticCallee()
+				if f == nil || !inModule(f) || f.Blocks == nil || depth > 3 {
 					return false
+				}
+				for i, a := range r.Common().Args {
+					if a == v && (i >= len(f.Params) || !loadedReadOnly(f.Params[i], depth+1)) {
+						return false
+					}
 				}
 			default:
 				return false
@@ -283,7 +296,31 @@ func tableValue(t *Term, depth int) bool {
 	case "const", "zero", "rtype":
 		return true
 	case "closure":
-		return len(t.Args) == 0
+		// captured constants only (a rule built by a factory: segmentRule(2))
+		for i, a := range t.Args {
+			if a == nil {
+				return false
+			}
+			if a.IsConst() {
+				continue
+			}
+			// a variable captured by reference that holds a constant and is never assigned by the closure
+			if a.Op == "ptr" && a.Cell != nil && !a.Cell.Sym && len(a.Path) == 0 && a.Cell.Val != nil && a.Cell.Val.IsConst() && t.Fn != nil && i < len(t.Fn.FreeVars) {
+				written := false
+				for _, b := range t.Fn.Blocks {
+					for _, in := range b.Instrs {
+						if st, ok := in.(*ssa.Store); ok && rootOf(st.Addr) == ssa.Value(t.Fn.FreeVars[i]) {
+							written = true
+						}
+					}
+				}
+				if !written {
+					continue
+				}
+			}
+			return false
+		}
+		return true
 	case "slicev", "struct":
 		for _, a := range t.Args {
 			if !tableValue(a, depth+1) {
